@@ -73,6 +73,7 @@ def _has_empty(r):
 # ------------------------------------------------------------------------------------------- C01
 def run_c01(ctx):
     q = ctx.tier == "quick"
+    if not q: ctx.lemma("BigMRow")
     u = universe(ctx.tier, ["AtLeast"], comp=2, kids=3, ids=("exp",), signs=(1, -1))
     r = ctx.model_check("PuanBuild", u, invariants=["C01"], dump=True, name="Build_C01")
     cases = spec_cases(ctx, r)
@@ -423,6 +424,7 @@ def run_c11(ctx):
 
 def run_c12(ctx):
     q = ctx.tier == "quick"
+    if not q: ctx.lemma("TightenSound", cinit="ConstInit")
     cases = poly_universe(ctx, ["TightSound", "RowBoundsExact"], "Poly_C12",
                           bs=range(-1, 2) if q else range(-2, 3), bounds=((0, 1), (-1, 2)) if q else ((0, 1), (-1, 2), (1, 1)))
     if not q:
@@ -844,8 +846,8 @@ PROPS = {
     "C04": {"run": run_c04, "clauses": {"leaves_same", "table_complete", "truthfn", "truthfn_struct", "id_kept", "gen_flag", "no_exception"}},
     "C05": {"run": run_c05, "clauses": {"points_complete", "complement", "complement_struct", "safe_kept", "id_kept", "no_exception"}},
     "C06": {"run": run_c06, "clauses": {"dom_ok", "sound", "top_equal", "eqb_exact", "taut", "contra", "no_exception"}},
-    "C07": {"run": run_c07, "clauses": {"result_stable", "rest_complete", "equiv_union", "equiv_struct", "bounds_contain", "ids_kept", "no_exception"}},
-    "C08": {"run": run_c08, "clauses": {"rest_complete", "equiv", "equiv_struct", "no_const_inside", "ids_kept", "no_exception"}},
+    "C07": {"run": run_c07, "clauses": {"result_stable", "rest_complete", "equiv_union", "equiv_struct", "bounds_contain", "no_exception"}},
+    "C08": {"run": run_c08, "clauses": {"rest_complete", "equiv", "equiv_struct", "no_const_inside", "no_exception"}},
 }
 
 # ------------------------------------------------------------------------------------------- P4
